@@ -17,7 +17,7 @@ Definition cfg_ok (c : cfg) : Prop := forallb (code_ok c) used_codes = true /\ v
 Definition posonly_read (c : cfg) : bool := vge c [3; 8] && negb (zmem (magic_int c) [3400; 3401]).
 Definition default_pos (c : cfg) : Z := if vge c [3; 8] then 0 else -1.
 Definition code_cfg_ok (c : cfg) (has_pos : bool) : Prop :=
-  code_ok c 99 = true /\ vge c [3; 11] = false /\ vge c [2; 3] = true /\ vge c [1; 3] = true /\ vge c [2; 0] = true /\ vge c [1; 5] = true
+  code_ok c 99 = true /\ vge c [3; 11] = false /\ vge c [2; 3] = true /\ vge c [1; 3] = true /\ vge c [2; 1] = true /\ vge c [1; 5] = true
   /\ posonly_read c = has_pos.
 Definition in32 (x : Z) : Prop := - 2147483648 <= x < 2147483648.
 
